@@ -344,8 +344,11 @@ func (exp *SplitExp) CallMode() CallMode {
 			return ModeNullMapCall
 		}
 		var inner CallMode = -1
-		for _, ev := range e.Value {
-			ev = enabledValue(ev)
+		// Fold the element modes in sorted key order: the fold is not
+		// symmetric (null and unknown elements give way to what follows),
+		// so the result must not depend on the iteration order of the map.
+		for _, k := range e.sortedKeys() {
+			ev := enabledValue(e.Value[k])
 			if is, ok := ev.(MapCallSource); !ok || is == nil {
 				if inner == -1 || inner == ModeSingleCall {
 					inner = ModeSingleCall
